@@ -307,8 +307,8 @@ Definition try_to_reorder {A} (func : MS A) : MS A :=
         modify (fun s => s <| rctx := true |>) ;;;
         r <- catch func ;;
         modify (fun s => s <| rctx := nested |>) ;;;
-        a <- reraise r ;;
+        (* finally: enable reordering requests, whatever the outcome *)
         modify (fun s => s <| last_len := Some (GROWTH_FACTOR * len_after) |>) ;;;
-        ret a
+        reraise r
       else raise e
   end.
